@@ -21,9 +21,9 @@ package types
 // sigAddrSetOK(tx) (the signature entries decode to addresses without error)
 //@ func (*Transaction).GetSignatureAddresses
 //@   trusted   -- provisional (C39 contracts): the returned list is exactly the set of signer addresses
-//@   ensures r1 == nil <==> sigAddrSetOK(ref(tx))
-//@   ensures r1 == nil ==> forall i int :: 0 <= i && i < len(r0) ==> sigAddrSet(ref(tx), r0[i])
-//@   ensures r1 == nil ==> forall a common.Address :: sigAddrSet(ref(tx), a) ==> exists i int :: 0 <= i && i < len(r0) && r0[i] == a
+//@   ensures r1 == nil <==> sigAddrSetOK(ref(self))
+//@   ensures r1 == nil ==> forall i int :: 0 <= i && i < len(r0) ==> sigAddrSet(ref(self), r0[i])
+//@   ensures r1 == nil ==> forall a common.Address :: sigAddrSet(ref(self), a) ==> exists i int :: 0 <= i && i < len(r0) && r0[i] == a
 
 //@ func AddressFromPubKey
 //@   trusted   -- provisional (C39): program hash of the single-key verification program; a function of the key
